@@ -29,7 +29,7 @@ def run(ctx):
                      'Detector::new keeps attack / release apart; the setters change one gain and nothing else')
     run_unit(ctx, 'envelope', search_crate='signal')
     run_kani(ctx, 'peak', harness=['c19_'], harness_timeout='8m')
-    env = ['c19_zero_time', 'c19_between', 'c19_set_times', 'c19_gain_mapping', 'c19_per_channel_gain', 'c19_adaptor_detect_envelope', 'c19_constructors'] + (['c19_t_'] if ctx.tier == 'thorough' else [])
+    env = ['c19_zero_time', 'c19_between', 'c19_set_times', 'c19_gain_mapping', 'c19_per_channel_gain', 'c19_adaptor_detect_envelope', 'c19_constructors', 'c19_clone_keeps_state'] + (['c19_t_'] if ctx.tier == 'thorough' else [])
     run_kani(ctx, 'envelope', harness=env, rustflags='--cfg rustaudio_dasp_verif', harness_timeout='20m',
              soft_timeout=(ctx.tier == 'thorough'))
 
